@@ -97,6 +97,7 @@ func c01Gen(rt *rapid.T) sPlan {
 	}
 	p.Prelude = rapid.IntRange(0, 2).Draw(rt, "prelude") == 0 && !p.Batches[0].ViaAPI
 	p.Interleave = p.Prelude && rapid.Bool().Draw(rt, "interleave")
+	p.PreludeHiccup = p.Prelude && rapid.IntRange(0, 2).Draw(rt, "preludeHiccup") == 0
 	return p
 }
 
